@@ -26,8 +26,12 @@ ASSUMPTIONS = [
     'termination is decided by a 10 s alarm per call on inputs of <= 40 instances',
 ]
 
-SCHEMA = {'classes': [{'name': 'P', 'attrs': [['Id', 'UNIQUE_ID'], ['Prev_Id', 'UNIQUE_ID']]}],
+SCHEMA = {'classes': [{'name': 'P', 'attrs': [['Id', 'UNIQUE_ID'], ['Prev_Id', 'UNIQUE_ID'], ['Other_Id', 'UNIQUE_ID']]}],
           'assocs': [{'rel': 4, 'shape': 'reflexive', 'src': 'P', 'src_keys': ['Prev_Id'], 'src_many': False,
+                      'src_cond': True, 'src_phrase': 'prev', 'tgt': 'P', 'tgt_keys': ['Id'], 'tgt_many': False,
+                      'tgt_cond': True, 'tgt_phrase': 'next'},
+                     # a second ordering of the same class under the same two phrases (as I_EVI R2908 / R2939 in ooaofooa)
+                     {'rel': 5, 'shape': 'reflexive', 'src': 'P', 'src_keys': ['Other_Id'], 'src_many': False,
                       'src_cond': True, 'src_phrase': 'prev', 'tgt': 'P', 'tgt_keys': ['Id'], 'tgt_many': False,
                       'tgt_cond': True, 'tgt_phrase': 'next'}],
           'uniques': [{'cls': 'P', 'name': 'I1', 'attrs': ['Id']}]}
@@ -39,6 +43,10 @@ def build(n, chains, rings=(), detour=False, probe=None):
     unlinked again - the succession order is a function of the present links only."""
     m = build_api(SCHEMA)
     inst = [m.new('P') for _ in range(n)]
+    if detour and n >= 2:
+        # the other ordering arranges the same instances differently (one chain against creation order)
+        for a, b in zip(range(n - 1, 0, -1), range(n - 2, -1, -1)):
+            assert xtuml.relate(inst[a], inst[b], 5, 'prev')
     if probe:
         probe(m, inst, [])             # nothing related yet: every instance is a chain of its own
     if detour and n >= 2:
